@@ -7,6 +7,13 @@ package main
 //	rda <maxLen> <hex>     the same as rd, reduced to the error class and "did it allocate > 1 MiB"
 //	wr  <type> <pre> <sid> <padn> <fields...> obs=<hex>          build through the API, WriteTo
 //	wr2 <padn2> <type> <pre> <sid> <padn> <fields...> obs=<hex>,<hex>   WriteTo twice
+//	wrd <junk> <len> wr|wr2 ...      the same on a FrameHeader that was used before: recycled through the
+//	                                 pool, then holding payload <junk> and length <len>
+//	rw  <max> <hex> obs=..           read a frame, WriteTo the returned header
+//	rwd <junk> <max> <hex> obs=..    the same, the pool holding a used header (junk payload, limit 0)
+//	rwa <max> <hex> obs=..           read a frame, SetAck(true) if it is SETTINGS, WriteTo on the same header
+//	rdm <lims> <hex>                 reads on one reader, one per entry of <lims> (d = ReadFrameFrom,
+//	                                 n = ReadFrameFromWithSize(n)), the pool holding a used header
 //
 // The canonical strings must match ocaml/drv_frames.ml exactly.
 
@@ -164,7 +171,10 @@ func newPosReader(in []byte) *posReader {
 func (p *posReader) pos() int { return p.n - p.src.Len() - p.br.Buffered() }
 
 // readOne runs ReadFrameFromWithSize once and returns the canonical result.
-func readOne(p *posReader, max uint32) (res string, cls string) {
+func readOne(p *posReader, max uint32) (res string, cls string) { return readOneWith(p, max, false) }
+
+// readOneWith: ReadFrameFrom when deflt, else ReadFrameFromWithSize(max)
+func readOneWith(p *posReader, max uint32, deflt bool) (res string, cls string) {
 	before := p.pos()
 	http2.VerifPoolTrackerStart(true)
 	var fr *http2.FrameHeader
@@ -176,7 +186,11 @@ func readOne(p *posReader, max uint32) (res string, cls string) {
 				panicked = fmt.Sprint(r)
 			}
 		}()
-		fr, err = http2.ReadFrameFromWithSize(p.br, max)
+		if deflt {
+			fr, err = http2.ReadFrameFrom(p.br)
+		} else {
+			fr, err = http2.ReadFrameFromWithSize(p.br, max)
+		}
 	}()
 	_, _, viol, log := http2.VerifPoolTrackerStop()
 	used := p.pos() - before
@@ -215,6 +229,28 @@ func runRds(max uint32, in []byte) string {
 		}
 		if len(parts) > len(in)/9+2 {
 			parts = append(parts, "no-progress")
+			break
+		}
+	}
+	return strings.Join(parts, " | ")
+}
+
+// runRdm: reads on one reader, each with its own limit; the pool first gets a used header
+// whose limit is 0, and every header read is released again, so that each read takes over
+// the header (and the bodies) the previous ones used.
+func runRdm(lims []string, in []byte) string {
+	usedHeaderIntoPool([]byte{1, 2, 3, 4, 5, 6, 7, 8, 9})
+	p := newPosReader(in)
+	var parts []string
+	for _, l := range lims {
+		var r, cls string
+		if l == "d" {
+			r, cls = readOneWith(p, 0, true)
+		} else {
+			r, cls = readOneWith(p, uint32(atoiU(l)), false)
+		}
+		parts = append(parts, r)
+		if cls != "ok" && cls != "unknown-type" {
 			break
 		}
 	}
@@ -335,14 +371,40 @@ func buildBody(ty string, f []string) (http2.Frame, []string, bool) {
 
 // writeFrame builds the frame and writes it `times` times; returns the outputs and the
 // pad length seen in each (0 when the frame is not padded).
-func writeFrame(ty string, pre uint8, sid uint32, f []string, times int) (outs [][]byte, pads []int, fields []string, err string) {
+// dirt is the previous life of a frame header: nil = a header as AcquireFrameHeader gives it.
+type dirt struct {
+	junk   []byte
+	length int
+}
+
+// usedHeaderIntoPool puts a FrameHeader that has been used (payload buffer, length, flags,
+// stream, limit 0 and a body) back into the pool, so that the next acquire gets it.
+func usedHeaderIntoPool(junk []byte) {
+	h := http2.AcquireFrameHeader()
+	h.VerifDirty(junk, len(junk)+3)
+	h.VerifSetMaxLen(0)
+	h.SetFlags(0x7f)
+	h.SetStream(0xfffffff0)
+	p := http2.AcquireFrame(http2.FramePing).(*http2.Ping)
+	p.SetData(junk)
+	h.SetBody(p)
+	http2.ReleaseFrameHeader(h)
+}
+
+func writeFrame(ty string, pre uint8, sid uint32, f []string, times int, d *dirt) (outs [][]byte, pads []int, fields []string, err string) {
 	defer func() {
 		if r := recover(); r != nil {
 			err = "panic"
 		}
 	}()
 	body, fields, padded := buildBody(ty, f)
+	if d != nil {
+		usedHeaderIntoPool(d.junk)
+	}
 	fr := http2.AcquireFrameHeader()
+	if d != nil {
+		fr.VerifDirty(d.junk, d.length)
+	}
 	fr.SetFlags(http2.FrameFlags(int8(pre)))
 	fr.SetStream(sid)
 	fr.SetBody(body)
@@ -366,12 +428,17 @@ func writeFrame(ty string, pre uint8, sid uint32, f []string, times int) (outs [
 }
 
 // wrLine composes the case line; the implementation's result is the hex of the output.
-func wrLine(ty string, pre uint8, sid uint32, f []string, twice bool) (line, res string, outs [][]byte) {
+func wrLine(ty string, pre uint8, sid uint32, f []string, twice bool, d *dirt) (line, res string, outs [][]byte) {
 	times := 1
 	if twice {
 		times = 2
 	}
-	outs, pads, fields, e := writeFrame(ty, pre, sid, f, times)
+	outs, pads, fields, e := writeFrame(ty, pre, sid, f, times, d)
+	defer func() {
+		if d != nil {
+			line = fmt.Sprintf("wrd %s %d %s", hx(d.junk), d.length, line)
+		}
+	}()
 	if e != "" {
 		return fmt.Sprintf("wr %s %d %d 0 %s obs=-", ty, pre, sid, strings.Join(f, " ")), e, nil
 	}
@@ -386,6 +453,11 @@ func wrLine(ty string, pre uint8, sid uint32, f []string, twice bool) (line, res
 // runWr replays a stored wr / wr2 line: the pad length is random in the implementation,
 // so the write is repeated until the stored pad lengths come up (1 in 247 per padded write).
 func runWr(f []string) string {
+	var d *dirt
+	if f[0] == "wrd" {
+		d = &dirt{junk: unhx(f[1]), length: int(atoiU(f[2]))}
+		f = f[3:]
+	}
 	twice := f[0] == "wr2"
 	var padn2 int
 	if twice {
@@ -400,7 +472,7 @@ func runWr(f []string) string {
 	}
 	var last string
 	for try := 0; try < 400000; try++ {
-		outs, pads, _, e := writeFrame(ty, pre, sid, fields, times)
+		outs, pads, _, e := writeFrame(ty, pre, sid, fields, times, d)
 		if e != "" {
 			return e
 		}
@@ -416,18 +488,24 @@ func runWr(f []string) string {
 }
 
 // runRw reads one frame and writes the returned *FrameHeader back out.
-func runRw(max uint32, in []byte) (res string) {
+func runRw(max uint32, in []byte, junk []byte, ackInPlace bool) (res string) {
 	defer func() {
 		if r := recover(); r != nil {
 			res = "go-panic"
 		}
 	}()
+	if junk != nil {
+		usedHeaderIntoPool(junk)
+	}
 	p := newPosReader(in)
 	fr, err := http2.ReadFrameFromWithSize(p.br, max)
 	if err != nil {
 		return "err " + errClass(err)
 	}
 	defer http2.ReleaseFrameHeader(fr)
+	if st, ok := fr.Body().(*http2.Settings); ok && ackInPlace {
+		st.SetAck(true) // the peer's SETTINGS acknowledged on the header it was read into
+	}
 	var buf bytes.Buffer
 	bw := bufio.NewWriterSize(&buf, 1<<16)
 	if _, e := fr.WriteTo(bw); e != nil {
@@ -448,8 +526,14 @@ func runFrameLine(line string) string {
 	case "rda":
 		return runRda(uint32(atoiU(f[1])), unhx(f[2]))
 	case "rw":
-		return runRw(uint32(atoiU(f[1])), unhx(f[2]))
-	case "wr", "wr2":
+		return runRw(uint32(atoiU(f[1])), unhx(f[2]), nil, false)
+	case "rwa":
+		return runRw(uint32(atoiU(f[1])), unhx(f[2]), nil, true)
+	case "rwd":
+		return runRw(uint32(atoiU(f[2])), unhx(f[3]), append([]byte{}, unhx(f[1])...), false)
+	case "rdm":
+		return runRdm(strings.Split(f[1], ","), unhx(f[2]))
+	case "wr", "wr2", "wrd":
 		return runWr(f)
 	}
 	return "?"
@@ -555,8 +639,17 @@ var payloadLens = []int{0, 1, 4, 5, 6, 7, 8, 9, 16383, 16384, 16385}
 var streamIDs = []uint32{0, 1, 2, 1<<31 - 1, 1 << 31, 1<<31 + 5, 1<<32 - 1}
 
 func genFrameWrite(c *genctx) {
+	var emitD func(kind, ty string, pre uint8, sid uint32, f []string, twice bool, d *dirt)
 	emit := func(kind, ty string, pre uint8, sid uint32, f []string, twice bool) {
-		line, res, outs := wrLine(ty, pre, sid, f, twice)
+		emitD(kind, ty, pre, sid, f, twice, nil)
+		// the same on a header that was used before (every 3rd case, and every SETTINGS)
+		if c.r.intn(3) == 0 || ty == "settings" {
+			junk := c.r.bytes(c.r.pick(1, 6, 6, 12, 40))
+			emitD(kind+"-dirty", ty, pre, sid, f, twice, &dirt{junk: junk, length: c.r.pick(0, len(junk), 5, 1<<20)})
+		}
+	}
+	emitD = func(kind, ty string, pre uint8, sid uint32, f []string, twice bool, d *dirt) {
+		line, res, outs := wrLine(ty, pre, sid, f, twice, d)
 		ref := "-"
 		if len(outs) == 1 && xnetApplicable(ty, sid, f) {
 			ref = xnetParse(outs[0])
@@ -701,9 +794,21 @@ func genFrameWrite(c *genctx) {
 		if i%3 == 0 {
 			b = corpus[c.r.intn(len(corpus))]
 		}
-		res := runRw(16384, b)
+		res := runRw(16384, b, nil, false)
 		c.st.result("forward")
 		c.emit("forward", fmt.Sprintf("rw 16384 %s obs=%s", hx(b), strings.Replace(res, " ", ":", 1)), res, "-")
+		switch i % 4 {
+		case 1: // into a header the pool had in use before
+			junk := c.r.bytes(c.r.pick(1, 6, 12, 40))
+			res = runRw(16384, b, junk, false)
+			c.emit("forward-dirty", fmt.Sprintf("rwd %s 16384 %s obs=%s", hx(junk), hx(b), strings.Replace(res, " ", ":", 1)), res, "-")
+		case 2: // SETTINGS acknowledged in place
+			if b[3] != 4 {
+				b = c.rawValidFrame(4, 0)
+			}
+			res = runRw(16384, b, nil, true)
+			c.emit("ack-in-place", fmt.Sprintf("rwa 16384 %s obs=%s", hx(b), strings.Replace(res, " ", ":", 1)), res, "-")
+		}
 	}
 }
 
@@ -1086,6 +1191,33 @@ func genFrameRead(c *genctx) {
 			c.st.result("stream-prefix")
 			c.emit("prefix", fmt.Sprintf("rds 16384 %s", hx(b)), runRds(16384, b), "-")
 		}
+	}
+	// 6b. reads with different limits on one reader and one pool: each read obeys its own limit
+	limTokens := []string{"d", "d", "16384", "0", "1048576", "100", "16385", "16777215", "9"}
+	nrdm := 1500
+	if thorough {
+		nrdm = 30000
+	}
+	for i := 0; i < nrdm && len(corpus) > 0; i++ {
+		var stream []byte
+		var lims []string
+		for k := 2 + c.r.intn(4); k > 0; k-- {
+			lims = append(lims, limTokens[c.r.intn(len(limTokens))])
+			switch c.r.intn(4) {
+			case 0: // a header announcing a length around the interesting limits, payload cut short
+				n := c.r.pick(101, 16384, 16385, 20000, 1<<20, 1<<20+1, 1<<24-1)
+				stream = append(stream, rawFrame(n, byte(c.r.pick(0, 1, 9, 7, 0x50)), 0, 1, c.r.bytes(c.r.intn(20)))...)
+				k = 0
+			case 1: // a whole frame of 101..130 bytes (above the limit 100)
+				stream = append(stream, c.rawValidFrame(c.r.pick(0, 1, 9), 101+c.r.intn(30))...)
+			default:
+				stream = append(stream, corpus[c.r.intn(len(corpus))]...)
+			}
+		}
+		lims = append(lims, limTokens[c.r.intn(len(limTokens))])
+		l := strings.Join(lims, ",")
+		c.st.result("limits-mix")
+		c.emit("limits-mix", fmt.Sprintf("rdm %s %s", l, hx(stream)), runRdm(lims, stream), "-")
 	}
 	// 7. every prefix of single frames (first read only), larger frames sampled
 	for i := 0; i < len(corpus) && i < 200; i++ {
